@@ -14,13 +14,13 @@ import (
 )
 
 func init() {
-	register(&Rule{ID: "DECL-1", Props: []string{"C06", "C15", "C17", "C18", "C19", "C12", "C02"}, Floor: 30,
+	register(&Rule{ID: "DECL-1", Props: []string{"C06", "C15", "C17", "C18", "C19", "C12", "C02"}, Floor: 16,
 		Doc: "every container literal of the declaration family copies Name, Desc, EnvVar, HideValue, SetByUser and the value() result from the same parameter and goes to the registration function matching the case type (…Opt / …Arg)", Run: decl1})
 	register(&Rule{ID: "DECL-2", Props: []string{"C06", "C18", "C17"}, Floor: 28,
 		Doc: "short forms build the struct from the like-named parameters and delegate to the typed method", Run: decl2})
 	register(&Rule{ID: "DECL-3", Props: []string{"C06", "C02"}, Floor: 14,
 		Doc: "XOpt.value and XArg.value call the same values.NewX(into, recv.Value), allocate iff into == nil and return that into", Run: decl3})
-	register(&Rule{ID: "DECL-4", Props: []string{"C18", "C10"}, Floor: 5,
+	register(&Rule{ID: "DECL-4", Props: []string{"C18", "C10", "C16"}, Floor: 5,
 		Doc: "option registration: one writer of the option index, a loop over all names, duplicate check (panic) before insert, one pointer for all names which is also the listed one, '-' prefix iff length 1", Run: decl4})
 	register(&Rule{ID: "DECL-5", Props: []string{"C18", "C16"}, Floor: 5,
 		Doc: "argument registration: insert dominated by the not-found edge and by a true validator result, both failing edges panic; the validator demands no lexer error, exactly one token, kind Arg", Run: decl5})
@@ -94,7 +94,45 @@ func litFields(al *ssa.Alloc) (fields map[string][]ssa.Value, whole []ssa.Value)
 			}
 		case *ssa.Store:
 			if x.Addr == al {
+				// zeroing the variable before its fields are set (`var v T` / `v = T{}` ahead of the field
+				// stores, in the same block) changes nothing
+				if isZeroConst(x.Val) {
+					early := true
+					for _, fs := range firstStore {
+						if fs.Block() != x.Block() || ir.IndexIn(fs) < ir.IndexIn(x) {
+							early = false
+						}
+					}
+					if early {
+						continue
+					}
+				}
 				whole = append(whole, x.Val)
+			}
+		}
+	}
+	// a single whole assignment that copies another literal of the same function (what a constructor
+	// helper leaves behind once inlined: `tmp := T{...}; *lit = tmp`) and no field store of its own: the
+	// content is that literal's
+	if len(whole) == 1 && len(fields) == 0 {
+		if ld, ok := whole[0].(*ssa.UnOp); ok && ld.Op == token.MUL {
+			if src, isAl := ld.X.(*ssa.Alloc); isAl && src != al && src.Parent() == al.Parent() {
+				// the source must not be written after the copy was taken
+				late := false
+				for _, u := range *src.Referrers() {
+					if fa, isFA := u.(*ssa.FieldAddr); isFA {
+						for _, uu := range *fa.Referrers() {
+							if st, isSt := uu.(*ssa.Store); isSt && st.Addr == ssa.Value(fa) {
+								if st.Block() != ld.Block() && !st.Block().Dominates(ld.Block()) || st.Block() == ld.Block() && ir.IndexIn(st) > ir.IndexIn(ld) {
+									late = true
+								}
+							}
+						}
+					}
+				}
+				if !late {
+					return litFields(src)
+				}
 			}
 		}
 	}
